@@ -321,61 +321,73 @@ def check(m, run):
     eq = ci.methods.get('__eq__')
     if eq is None:
         raise AnalysisError('abstract.SplineGeometry.__eq__ not found')
-    digits = digits_attrs(m)
-    if '_precision' not in digits:
-        run.note('KD2', 'abstract', '`_precision` no longer flows to a decimals=/precision= keyword; digit-kind table empty for it')
-    fl = EqFlow(eq.node, run, digits, eq.key)
-    fl.block(eq.node.body)
-    for comp in COMPONENTS:
-        key = '%s :: component %s' % (eq.key, comp)
-        cmpd = fl.compared.get(comp, [])
-        run.ob('EQ1.compared', key, bool(cmpd), 'self/other comparison found: %s' % cmpd[:2] if cmpd else
-               'no comparison between self and other %s (accepted attribute names: %s)' % (comp, sorted(COMPONENTS[comp])))
-        if cmpd:
-            cons = fl.consumed.get(comp, [])
-            run.ob('KD3.verdict-consumed', key, bool(cons),
-                   'verdict reaches `return False` via test `%s`' % cons[0] if cons else
-                   'the comparison result for %s is computed (%s) but no test that can `return False` reads it' % (comp, cmpd[0]))
-    # KD3b: a verdict-carrying local that is re-initialised inside a loop must be read inside that loop,
-    # otherwise the verdicts of all iterations but the last are lost
-    for loop in [n for n in walk_no_nested(eq.node) if isinstance(n, (ast.For, ast.While))]:
-        inner = list(walk_no_nested(loop))
-        assigned = {t.id for n in inner if isinstance(n, ast.Assign) for t in n.targets if isinstance(t, ast.Name)}
-        for name in sorted(assigned):
-            if not fl.ever_carried.get(name):
-                continue
-            reads = [n for n in inner if isinstance(n, ast.Name) and n.id == name and isinstance(n.ctx, ast.Load)
-                     and not (isinstance(getattr(n, '_sa_parent', None), ast.Attribute) and n._sa_parent.attr in ('append', 'extend', 'add'))]
-            run.ob('KD3.per-iteration-verdict', '%s :: local %s in `%s`' % (eq.key, name, norm(loop).split(':')[0]), bool(reads),
-                   'read inside the loop that re-initialises it' if reads else
-                   'local `%s` carries comparison verdicts (%s), is re-initialised in every iteration of this loop but never read inside it: only the last iteration can influence the result'
-                   % (name, sorted(fl.ever_carried[name])))
-    # positive control for the extent rule (zero instances on a tree that compares whole points through zip)
-    from .. import report as _rep
-    ctl_src = ('def __eq__(self, other):\n    for sk, ok in zip(self._control_points, other._control_points):\n'
-               '        for idx in range(self.dimension):\n            if abs(sk[idx] - ok[idx]) >= 1e-7:\n                return False\n    return True\n')
-    ctl_fn = ast.parse(ctl_src).body[0]
-    for par in ast.walk(ctl_fn):
-        for ch in ast.iter_child_nodes(par):
-            ch._sa_parent = par
-    ctl_run = _rep.Run('C19', 'quick', 0, quiet=True)
-    ctl = EqFlow(ctl_fn, ctl_run, digits, 'control')
-    ctl.block(ctl_fn.body)
-    if not any(o.rule == 'EQ1.compared-over-full-extent' and not o.ok for o in ctl_run.obs):
-        raise AnalysisError('EQ1 extent rule: positive control not detected (the rule is broken)')
-    run.note('EQ1.compared-over-full-extent', eq.key, 'positive control (index over range(self.dimension)) detected; instances on this tree: %d'
-             % sum(1 for o in run.obs if o.rule == 'EQ1.compared-over-full-extent'))
-    # EQ4: __ne__
-    ne = ci.methods.get('__ne__')
-    if ne is None:
-        run.ob('EQ4.ne-negates-eq', 'abstract.SplineGeometry.__ne__', True, 'no __ne__: Python 3 derives it from __eq__')
-    else:
-        rets = [n for n in ast.walk(ne.node) if isinstance(n, ast.Return)]
-        ok = len(rets) == 1 and isinstance(rets[0].value, ast.UnaryOp) and isinstance(rets[0].value.op, ast.Not) and (
-            (isinstance(rets[0].value.operand, ast.Call) and isinstance(rets[0].value.operand.func, ast.Attribute)
-             and rets[0].value.operand.func.attr == '__eq__') or
-            (isinstance(rets[0].value.operand, ast.Compare) and isinstance(rets[0].value.operand.ops[0], ast.Eq)))
-        run.ob('EQ4.ne-negates-eq', ne.key, ok, 'returns `%s`' % (norm(rets[0].value) if rets else '?'))
+    # equality is decided by interpreting __eq__ / __ne__ on pairs of abstract shapes that differ in exactly one component, or in none
+    # (EQ2); the flow rules that read how each comparison verdict reaches `return False` corroborate - except the kind of the tolerance
+    # (a magnitude, not a digit count), which pairs of order tokens cannot tell apart and which stays with KD2
+    from .. import skel_drivers as _sd2
+    n_eq = len(run.obs)
+    try:
+        _sd2.eq2(m, run)
+    except AnalysisError as ex:
+        run.error(str(ex))
+    eq_ok = len(run.obs) > n_eq and all(o.ok for o in run.obs[n_eq:])
+    with run.corroborating(eq_ok, 'EQ2', rules=('EQ1.compared', 'EQ3.symmetry'),
+                           only=lambda o: o.rule in ('EQ1.compared', 'KD3.verdict-consumed', 'KD3.per-iteration-verdict', 'EQ4.ne-negates-eq', 'EQ3.symmetry', 'EQ1.compared-over-full-extent')):
+        digits = digits_attrs(m)
+        if '_precision' not in digits:
+            run.note('KD2', 'abstract', '`_precision` no longer flows to a decimals=/precision= keyword; digit-kind table empty for it')
+        fl = EqFlow(eq.node, run, digits, eq.key)
+        fl.block(eq.node.body)
+        for comp in COMPONENTS:
+            key = '%s :: component %s' % (eq.key, comp)
+            cmpd = fl.compared.get(comp, [])
+            run.ob('EQ1.compared', key, bool(cmpd), 'self/other comparison found: %s' % cmpd[:2] if cmpd else
+                   'no comparison between self and other %s (accepted attribute names: %s)' % (comp, sorted(COMPONENTS[comp])))
+            if cmpd:
+                cons = fl.consumed.get(comp, [])
+                run.ob('KD3.verdict-consumed', key, bool(cons),
+                       'verdict reaches `return False` via test `%s`' % cons[0] if cons else
+                       'the comparison result for %s is computed (%s) but no test that can `return False` reads it' % (comp, cmpd[0]))
+        # KD3b: a verdict-carrying local that is re-initialised inside a loop must be read inside that loop,
+        # otherwise the verdicts of all iterations but the last are lost
+        for loop in [n for n in walk_no_nested(eq.node) if isinstance(n, (ast.For, ast.While))]:
+            inner = list(walk_no_nested(loop))
+            assigned = {t.id for n in inner if isinstance(n, ast.Assign) for t in n.targets if isinstance(t, ast.Name)}
+            for name in sorted(assigned):
+                if not fl.ever_carried.get(name):
+                    continue
+                reads = [n for n in inner if isinstance(n, ast.Name) and n.id == name and isinstance(n.ctx, ast.Load)
+                         and not (isinstance(getattr(n, '_sa_parent', None), ast.Attribute) and n._sa_parent.attr in ('append', 'extend', 'add'))]
+                run.ob('KD3.per-iteration-verdict', '%s :: local %s in `%s`' % (eq.key, name, norm(loop).split(':')[0]), bool(reads),
+                       'read inside the loop that re-initialises it' if reads else
+                       'local `%s` carries comparison verdicts (%s), is re-initialised in every iteration of this loop but never read inside it: only the last iteration can influence the result'
+                       % (name, sorted(fl.ever_carried[name])))
+        # positive control for the extent rule (zero instances on a tree that compares whole points through zip)
+        from .. import report as _rep
+        ctl_src = ('def __eq__(self, other):\n    for sk, ok in zip(self._control_points, other._control_points):\n'
+                   '        for idx in range(self.dimension):\n            if abs(sk[idx] - ok[idx]) >= 1e-7:\n                return False\n    return True\n')
+        ctl_fn = ast.parse(ctl_src).body[0]
+        for par in ast.walk(ctl_fn):
+            for ch in ast.iter_child_nodes(par):
+                ch._sa_parent = par
+        ctl_run = _rep.Run('C19', 'quick', 0, quiet=True)
+        ctl = EqFlow(ctl_fn, ctl_run, digits, 'control')
+        ctl.block(ctl_fn.body)
+        if not any(o.rule == 'EQ1.compared-over-full-extent' and not o.ok for o in ctl_run.obs):
+            raise AnalysisError('EQ1 extent rule: positive control not detected (the rule is broken)')
+        run.note('EQ1.compared-over-full-extent', eq.key, 'positive control (index over range(self.dimension)) detected; instances on this tree: %d'
+                 % sum(1 for o in run.obs if o.rule == 'EQ1.compared-over-full-extent'))
+        # EQ4: __ne__
+        ne = ci.methods.get('__ne__')
+        if ne is None:
+            run.ob('EQ4.ne-negates-eq', 'abstract.SplineGeometry.__ne__', True, 'no __ne__: Python 3 derives it from __eq__')
+        else:
+            rets = [n for n in ast.walk(ne.node) if isinstance(n, ast.Return)]
+            ok = len(rets) == 1 and isinstance(rets[0].value, ast.UnaryOp) and isinstance(rets[0].value.op, ast.Not) and (
+                (isinstance(rets[0].value.operand, ast.Call) and isinstance(rets[0].value.operand.func, ast.Attribute)
+                 and rets[0].value.operand.func.attr == '__eq__') or
+                (isinstance(rets[0].value.operand, ast.Compare) and isinstance(rets[0].value.operand.ops[0], ast.Eq)))
+            run.ob('EQ4.ne-negates-eq', ne.key, ok, 'returns `%s`' % (norm(rets[0].value) if rets else '?'))
     # EQ5: no override in subclasses
     for k in m.subclasses(ci.key):
         if k == ci.key:
